@@ -51,6 +51,9 @@ def singleCharTok (c : Char) : Option Tok :=
   | some n => Tok.ofName n
   | none => none
 
+/-- the `c if c.is_whitespace() => continue` arm of `next_token` -/
+def lexSkips (c : Char) : Bool := LEX_SKIPS_RUST_WHITESPACE && isRustWhitespace c
+
 /-- `read_hop_predicate` stops in front of such a character -/
 def stopsPred (c : Char) : Bool := isRustWhitespace c || RESERVED_CHARS.contains c
 
@@ -68,7 +71,7 @@ def flushPred : PredState → List Token
 def lexStart (c : Char) (idx : Nat) : List Token × PredState :=
   match singleCharTok c with
   | some k => ([⟨k, idx, idx + 1⟩], none)
-  | none => if LEX_SKIP.contains c then ([], none) else ([], some (idx, [c]))
+  | none => if lexSkips c then ([], none) else ([], some (idx, [c]))
 
 def lexGo : List Char → Nat → PredState → List Token
   | [], idx, st => flushPred st ++ [⟨.eoi, idx, idx⟩]
